@@ -45,12 +45,15 @@ BAD = {
     "toml": [("null", '{a = NULL}'), ("late_null", '{s = "@U@", t = {n = NULL}}'), ("constraint", '{c = pr}')],
     "xml": [("nontuple", '1'), ("noroot", '{a = "@U@"}'), ("name_and_text", '{root = {name = "r", text = "@U@"}}'),
             ("late_bad_child", '{root = {name = "r", attrs = {a = "@U@"}, children = [{name = "c"}, 1]}}'),
+            ("late_constraint_attr", '{root = {name = "r", children = [{name = "a@U@"}, {name = "b", attrs = {k = pr}}]}}'),
             ("late_bad_grandchild", '{root = {name = "r", children = [{name = "a@U@"}, {name = "b", children = [{name = "c"}, {name = "d", text = "x"}]}]}}')],
-    "env": [],
-    "flags": [("nontuple", '1'), ("string", '"@U@"'), ("list", '["@U@"]')],
+    "env": [("constraint", '{A = "@U@", C = pr}')],
+    "flags": [("nontuple", '1'), ("string", '"@U@"'), ("list", '["@U@"]'), ("late_constraint", '{name = "@U@", c = pr}'),
+              ("late_constraint_in_list", '{name = "@U@", l = [1, pr]}')],
     "exec": [("nontuple", '1'), ("command_int", '{command = 1}'), ("no_command", '{args = ["@U@"]}'),
              ("args_int", '{command = "echo", args = 1}'), ("env_int", '{command = "echo@U@", env = 1}'),
-             ("late_bad_arg", '{command = "echo", env = {X = "@U@"}, args = ["ok", 1.5, [1]]}')],
+             ("late_bad_arg", '{command = "echo", env = {X = "@U@"}, args = ["ok", 1.5, [1]]}'),
+             ("late_constraint_arg", '{command = "echo", args = ["@U@", pr]}'), ("constraint_env", '{command = "echo@U@", env = {X = pr}}')],
 }
 SRC_NAMES = [("plain", "p.ucg"), ("dotted", "conf.prod.ucg"), ("subdir", "sub/x.ucg"), ("dash", "my-app_1.ucg"), ("symlink", "site.ucg")]
 FAULT_KINDS = ["enospc", "eisdir", "efbig"]
